@@ -305,4 +305,4 @@ def run(report, tier):
                  "BFS over parameter words (alphabet %s) x deps forms %s x async x container x mockable x feature; "
                  "non-trivial = at least one forwarded argument" % (list(PARAMS), DEPS))
     report.assumptions += ["rustc 1.95 and its JSON diagnostics", "generated scaffolding (direct-call side compiles and runs)"]
-    evaluate(states, report, tier)
+    common.evaluate_chunked(evaluate, states, report, tier)
